@@ -47,9 +47,10 @@ ASSUMPTIONS = [
     "support, -inf outside and exp(lnprob) == prob",
     "BoundedGaussian documents an unnormalised density: only "
     "proportionality to the Gaussian inside the support is required",
-    "a shared base prior occurring twice in one expression is sampled once "
-    "per occurrence by HoloPy; the scripted answers depend on the call "
-    "arguments only, so nothing is asserted about that",
+    "a base prior occurring twice in one expression: the scripted answers "
+    "depend on the call arguments only and cannot tell one draw from two; "
+    "the case derived:repeated-base-prior decides it with the real "
+    "generator, re-seeded before each draw",
     "only values of the stated alphabets are explored",
 ]
 TOLERANCES = {
@@ -148,6 +149,7 @@ def cases(tier, seed):
                 "tier": tier})
     out.append({"id": "algebra:unsigned-constants", "kind": "unsigned"})
     out.append({"id": "gaussian:integer-typed-arguments", "kind": "gint"})
+    out.append({"id": "derived:repeated-base-prior", "kind": "repeated"})
     out.append({"id": "algebra:numpy-scalar-left", "kind": "npleft",
                 "tier": tier})
     out.append({"id": "algebra:complex-constants", "kind": "cplxconst",
@@ -1547,6 +1549,45 @@ def _run_gint(case, ck, info):
     return digest(acc)
 
 
+def _run_repeated(case, ck, info):
+    """a prior used more than once in ONE expression is one quantity: the
+    derived samples are the expression evaluated on ITS samples (real
+    generator, re-seeded before each draw; no statistics involved)"""
+    from holopy.core.prior import Uniform, Gaussian
+    acc = []
+    for nm, mk in (("Uniform(1, 3)", lambda: Uniform(1.0, 3.0)),
+                   ("Gaussian(2, 0.5)", lambda: Gaussian(2.0, 0.5))):
+        for en, f in (("P - P", lambda p: p - p), ("P / P", lambda p: p / p),
+                      ("2 * P - P", lambda p: 2 * p - p),
+                      ("(P + 1) * (P - 1)", lambda p: (p + 1) * (p - 1)),
+                      ("np.sqrt(P * P)", lambda p: np.sqrt(p * p))):
+            P = mk()
+            E = f(P)
+            for size in (None, 1, 5):
+                np.random.seed(4711)
+                base = P.sample(size)
+                np.random.seed(4711)
+                try:
+                    got = E.sample(size)
+                    ck.trans += 2
+                except Exception as e:
+                    ck.true("derived-sample", False, "(%s).sample(%r) with "
+                            "P=%s raised %s: %s" %
+                            (en, size, nm, type(e).__name__, e))
+                    continue
+                want = f(np.asarray(base, dtype=float))
+                ok = np.shape(got) == np.shape(want) and bool(np.allclose(
+                    np.asarray(got, dtype=float), want, rtol=1e-13,
+                    atol=1e-13))
+                ck.true("derived-sample", ok, "(%s).sample(%r) with P=%s: "
+                        "got %r; the expression on P's samples %r gives %r" %
+                        (en, size, nm, np.asarray(got).tolist(),
+                         np.asarray(base).tolist(),
+                         np.asarray(want).tolist()))
+                acc.append(np.round(np.asarray(want, dtype=float), 9))
+    return digest(*acc)
+
+
 def _run_npleft(case, ck, info):
     """a NumPy scalar as the LEFT operand: numpy dispatches to
     __array_ufunc__ instead of the reflected operator."""
@@ -2355,7 +2396,7 @@ def _run_ndarr(case, ck, info):
 RUN = {"uniform": _run_uniform, "gaussian": _run_gaussian,
        "bgauss": _run_bgauss, "bgnone": _run_bgnone, "bgrej": _run_bgrej,
        "ctor": _run_ctor, "complex": _run_complex, "ident": _run_ident,
-       "unsup": _run_unsup, "npleft": _run_npleft, "unsigned": _run_unsigned, "gint": _run_gint, "ndelem": _run_ndelem,
+       "unsup": _run_unsup, "npleft": _run_npleft, "unsigned": _run_unsigned, "gint": _run_gint, "repeated": _run_repeated, "ndelem": _run_ndelem,
        "cplxconst": _run_cplxconst,
        "ndarr": _run_ndarr, "tree1": _run_tree1, "tree2": _run_tree2,
        "tree2u": _run_tree2u, "tree3": _run_tree3}
